@@ -283,6 +283,34 @@ func judge(ts []Tuple) obs {
 	return o
 }
 
+// parseSegments cuts a batch's stdout at the marker lines #0..#n-1. It returns
+// nil unless every marker occurs exactly once, in order, at a line start.
+func parseSegments(out string, n int) []string {
+	segs := make([]string, n)
+	rest := out
+	for k := 0; k < n; k++ {
+		m := marker(k) + "\n"
+		if !strings.HasPrefix(rest, m) {
+			return nil
+		}
+		rest = rest[len(m):]
+		end := len(rest)
+		if k+1 < n {
+			nm := marker(k+1) + "\n"
+			if strings.HasPrefix(rest, nm) {
+				end = 0
+			} else if i := strings.Index(rest, "\n"+nm); i >= 0 {
+				end = i + 1
+			} else {
+				return nil
+			}
+		}
+		segs[k] = rest[:end]
+		rest = rest[end:]
+	}
+	return segs
+}
+
 func firstLine(s string) string {
 	if i := strings.IndexByte(s, '\n'); i >= 0 {
 		s = s[:i]
@@ -425,6 +453,39 @@ func Run() int {
 			return 0
 		}
 		if len(ts) > 1 {
+			// First try to attribute the failure by the marker-delimited output
+			// segments: every tuple whose segment differs is re-run alone, the rest
+			// is re-run together (and must then pass). Anything irregular (markers
+			// missing, only stderr/exit wrong) falls back to halving.
+			if segs := parseSegments(o.Got.Stdout, len(ts)); segs != nil && o.Symptom != "rejected" && o.Symptom != "transpiler-panic" {
+				var sus, rest []Tuple
+				for k, t := range ts {
+					if e, _ := expected(t); segs[k] != e {
+						sus = append(sus, t)
+					} else {
+						rest = append(rest, t)
+					}
+				}
+				if len(sus) > 0 {
+					n := 0
+					for _, t := range sus {
+						if run([]Tuple{t}) == 0 {
+							// wrong inside the sequence, right alone
+							mu.Lock()
+							interactions++
+							mu.Unlock()
+							r.Fail(fmt.Sprintf("fn=%s args=(%s) shape=in-sequence-only symptom=%s", t.Fn, t.Args(), o.Symptom),
+								fmt.Sprintf("%s gives a wrong result inside a straight-line sequence of %d calls but the right one alone", t, len(ts)),
+								replay(failure{T: t, Symptom: o.Symptom, O: o}))
+						}
+						n++
+					}
+					if len(rest) > 0 {
+						n += run(rest)
+					}
+					return n
+				}
+			}
 			h := len(ts) / 2
 			n := run(ts[:h]) + run(ts[h:])
 			if n == 0 {
@@ -518,7 +579,7 @@ func Run() int {
 			}
 			r.Fail(fmt.Sprintf("fn=%s shape=%s symptom=%s", k.fn, k.shape, k.symptom),
 				fmt.Sprintf("strings.%s disagrees with Go for every enumerated tuple of shape %s [%s] (%d tuples); smallest: %s: %s%s",
-					k.fn, k.shape, shapeDoc[k.shape], len(fs), f0.T, f0.O.Detail, note), replay(f0))
+					k.fn, k.shape, docOf(k.fn, k.shape), len(fs), f0.T, f0.O.Detail, note), replay(f0))
 			continue
 		}
 		// only part of the cell fails: exact per-tuple keys
